@@ -441,3 +441,42 @@ func H_two_watchers() {
 	verifAssert(len(l) == 1 && l[0] == "/t", "the other Watcher's watch list is untouched")
 	verifReach("two-watchers")
 }
+
+// Close racing one control call, with one pre-emption allowed at any lock
+// acquisition, seam or yield: both return, and the Watcher is left usable for
+// further Close/Remove calls (no lock is left held, nothing blocks).
+func H_close_vs_op() {
+	W := verifParam("W")
+	verifKReset()
+	w := verifNewInotifyN(0, 1, 0)
+	verifSetupTable(w, W)
+	verifK.nIno = W + 1
+	verifK.blockAfter = true
+	go w.readEvents()
+	p := verifCtlPaths[verifChoose("path", len(verifCtlPaths))]
+	op := verifChoose("op", 3)
+	r := make(chan error, 1)
+	go func() {
+		switch op {
+		case 0:
+			r <- w.Add(p)
+		case 1:
+			r <- w.Remove(p)
+		case 2:
+			_ = w.WatchList()
+			r <- nil
+		}
+	}()
+	verifAssert(w.Close() == nil, "Close returns nil")
+	e := <-r
+	if op == 0 && e != nil && errors.Is(e, ErrClosed) {
+		verifReach("close-vs-op-add-lost-race")
+	}
+	// everything still returns afterwards
+	verifAssert(w.Close() == nil, "a further Close returns")
+	verifAssert(w.Remove(p) == nil, "Remove after Close returns nil")
+	verifAssert(w.WatchList() == nil, "WatchList after Close returns nil")
+	verifQuiesce()
+	verifAssert(verifGoroutines() == 0, "no goroutine is left behind (blocked) after Close")
+	verifReach("close-vs-op")
+}
